@@ -2158,7 +2158,10 @@ def run(chk: Check) -> int:
                 "a transaction, delete_tags of 100 / 101 members (enumerated); random control operations of up to 3 tasks with composites "
                 "in between (sampled); tag bookkeeping across registrations: tagged write + delete / `_tag:`, a prefix reaching into the tag part or "
                 "the default prefix set up (first time or again, enabled or disabled, same or other task) / tagged write + delete again "
-                "(enumerated), random histories of composites and registrations (sampled). distinct = distinct (table, op list)",
+                "(enumerated), random histories of composites and registrations (sampled). Warm decorators: all 21 decorator kinds called "
+                "twice while enabled (result stored), then three times under every single disabled command and four pairs x {all "
+                "backends, one prefix, disabling(), inherited by a child} (quick: commands that gate no strategy rotate through the "
+                "surroundings), judged by the serve-gate oracle (SERVE_GATES). distinct = distinct (table, op list)",
         "exhaustive": True,
         "exhaustive_subspace": f"all {n_sets} prefix sets of size <= 4 over a {n_alpha}-string alphabet x all keys (routing); "
                                f"all 28 single-command disabled sets + 'all' x 4 transaction nestings x all {len(rc.INVOKE)} public commands; "
